@@ -77,7 +77,7 @@ class T2Adv(object):
         self.pending = False
 
     def target(self):
-        return nfc.clf.RemoteTarget("106A", sens_res=bytearray(b"\x44\x00"), sel_res=bytearray([self.sel_res]),
+        return nfc.clf.RemoteTarget("106A", sens_res=bytearray(getattr(self, "sens", b"\x44\x00")), sel_res=bytearray([self.sel_res]),
                                     sdd_res=bytearray(self.sdd))
 
     def sense(self):
@@ -269,10 +269,11 @@ class T3Adv(object):
     `poll`: answer to the polling for 12FC ('ok' | 'mute' | 'short' | 'other-idm')."""
 
     def __init__(self, attr, data, ic=0xF0, sys=b"\x12\xFC", with_sys=True, lim=15, nblocks=None, beyond="err",
-                 poll="ok", idm=IDM, status_len_bug=False):
+                 poll="ok", idm=IDM, status_len_bug=False, rr="mute", pmm=None):
         self.attr, self.data = bytes(attr), bytes(data)
         self.idm = bytes(idm)
-        self.pmm = bytes([0, ic]) + b"\xFF" * 6
+        self.pmm = bytes([0, ic]) + b"\xFF" * 6 if pmm is None else bytes(pmm)
+        self.rr = rr          # answer to Request Response: 'mute' | mode octet(s) as bytes
         self.sys, self.with_sys = bytes(sys), with_sys
         self.lim, self.beyond, self.poll = lim, beyond, poll
         self.nblocks = nblocks if nblocks is not None else 1 + (len(self.data) + 15) // 16
@@ -296,13 +297,24 @@ class T3Adv(object):
             return None
         code = cmd[1]
         if code == 0:
+            # poll: 'ok' | 'mute' | 'short' | 'other-idm' | 'extra' (two octets of request data although none was
+            # requested) | 'noreq' (no request data although requested) | ('len', n): n data octets whatever was asked
             if self.poll == "mute":
                 return None
             idm = self.idm if self.poll != "other-idm" else bytes(8)
-            r = idm + self.pmm + (b"\x12\xFC" if cmd[4] == 1 else b"")
+            want = len(cmd) > 4 and cmd[4] in (1, 2)
+            if self.poll == "extra":
+                want = True
+            if self.poll == "noreq":
+                want = False
+            r = idm + self.pmm[:8] + (b"\x12\xFC" if want else b"")
             if self.poll == "short":
                 r = r[:10]
+            if isinstance(self.poll, tuple):
+                r = (r + bytes(range(40)))[:self.poll[1]]
             return bytes([2 + len(r), 1]) + r
+        if code == 4 and cmd[2:10] == self.idm and self.rr != "mute":
+            return bytes([10 + len(self.rr), 5]) + self.idm + bytes(self.rr)
         if cmd[2:10] != self.idm or code != 6:
             return None
         pos = 10
@@ -354,7 +366,7 @@ class T4Adv(object):
 
     def __init__(self, cc, file, fid=b"\xE1\x04", kind="A", ats=b"\x05\x78\x80\x70\x02", sensb=None, attrib=b"\x00",
                  read_mode="ok", sel_app="v2", chunk=253, frame_mode="ok", frame_from=0, sel_res=0x20,
-                 sdd=b"\x08\x01\x02\x03", read_from=2, cc_over=0):
+                 sdd=b"\x08\x01\x02\x03", read_from=2, cc_over=0, wtxm=1, flood_inf=1, flood_len=None):
         self.cc, self.file, self.fid = bytes(cc), bytes(file), bytes(fid)
         self.kind, self.ats, self.attrib = kind, ats, attrib
         self.sensb = sensb if sensb is not None else bytes([0x50, 1, 2, 3, 4, 0, 0, 0, 0, 0x00, 0x81, 0x70])
@@ -362,6 +374,9 @@ class T4Adv(object):
         self.frame_mode, self.frame_from = frame_mode, frame_from
         self.sel_res, self.sdd = sel_res, bytes(sdd)
         self.read_from, self.cc_over = read_from, cc_over
+        # frame level floods: the WTXM octet of the S(WTX) requests, INF octets per chained block of the 'chain'
+        # flood, number of flood frames after which the card behaves again (None = for ever)
+        self.wtxm, self.flood_inf, self.flood_len = wtxm, flood_inf, flood_len
         self.sel = None
         self.bn = 1
         self.rx = b""
@@ -370,7 +385,7 @@ class T4Adv(object):
 
     def target(self):
         if self.kind == "A":
-            return nfc.clf.RemoteTarget("106A", sens_res=bytearray(b"\x44\x03"), sel_res=bytearray([self.sel_res]),
+            return nfc.clf.RemoteTarget("106A", sens_res=bytearray(getattr(self, "sens", b"\x44\x03")), sel_res=bytearray([self.sel_res]),
                                         sdd_res=bytearray(self.sdd))
         return nfc.clf.RemoteTarget("106B", sensb_res=bytearray(self.sensb))
 
@@ -425,9 +440,11 @@ class T4Adv(object):
             return self.attrib
         self.nframes += 1
         adv = self.frame_mode if self.nframes > self.frame_from else "ok"
+        if self.flood_len is not None and self.nframes > self.frame_from + self.flood_len:
+            adv = "ok"
         pcb = cmd[0]
         if adv == "wtx":
-            return b"\xF2\x01"
+            return bytes([0xF2, self.wtxm])
         if adv == "empty":
             return b""
         if pcb & 0xE6 == 0x02:          # I-block
@@ -449,7 +466,7 @@ class T4Adv(object):
         if pcb & 0xF6 == 0xA2:          # R(ACK)
             if self.txq or adv in ("chain", "chain0"):
                 self.bn ^= 1
-                c = self.txq.pop(0) if self.txq else (b"" if adv == "chain0" else b"\x00")
+                c = self.txq.pop(0) if self.txq else (b"" if adv == "chain0" else bytes(self.flood_inf))
                 more = bool(self.txq) or adv in ("chain", "chain0")
                 return bytes([0x02 | (0x10 if more else 0) | self.bn]) + c
             return bytes([0xA2 | self.bn])
